@@ -11,6 +11,14 @@ package main
 // their name hashes here, requested as proxies while it hashes elsewhere, and asked for again
 // after every change.
 //
+// A second kind of event changes the list WHILE A TOPIC IS BEING LOADED: a group is first unloaded
+// (its sessions leave, the idle timer fires), the store is made slow on the virtual clock (every
+// adapter call takes 3 virtual microseconds), a {sub} to the group is sent and, a generated number
+// of microseconds later - the topic is registered with the hub, paused, inside topicInit - the live
+// list changes to one which gives the name to the other side (searched among the lists of the
+// configured nodes, starting from a generated one). Then everything settles and the same oracle is
+// applied; for the topic which was being loaded every running instance counts, attached or not.
+//
 // Oracle (after every ring change, at quiescence), with owner(name) = the ring's node for the name:
 //   - no master instance of a topic keeps running here when owner(name) is another node
 //     ("nodes ... instead of both serving a topic": that node loads its own master on first use);
@@ -24,12 +32,24 @@ import (
 	"sort"
 	"strings"
 	"testing"
+	"time"
 
+	rh "github.com/tinode/chat/server/ringhash"
 	kit "github.com/tinode/chat/server/zzverifkit"
+	mem "github.com/tinode/chat/server/zzverifmem"
 	"pgregory.net/rapid"
 )
 
 const c17wRing = "c17w-ring" // marker (tick op): X = the new list of live nodes
+
+// c17wLoad: marker (tick op): session S subscribes to the unloaded group T and M virtual microseconds
+// later, while the topic is being loaded from a slow store, the list of live nodes changes: to X if
+// that moves the name to the other side, else to the first list (enumeration of the configured
+// nodes' subsets, starting at L) which does.
+const c17wLoad = "c17w-load"
+
+// c17wLat: virtual microseconds per adapter call while a topic is loaded under a ring change.
+const c17wLat = 3
 
 var c17wNodes = []string{"a", "b", "c", "d"}
 
@@ -90,8 +110,13 @@ func c17wGen(rt *rapid.T) c17wProg {
 			t = fmt.Sprintf("p%d", 1-s)
 		}
 		switch x := gInt(rt, 0, 99, "opk"); {
-		case x < 35:
+		case x < 30:
 			p.Ops = append(p.Ops, wOp{K: "tick", N: 1, A: c17wRing, X: live()})
+		case x < 45:
+			// the list changes while a group is being loaded: 1, 2, 4, 5, ... microseconds after the {sub},
+			// never at the instant a store call (3 microseconds each) returns
+			p.Ops = append(p.Ops, wOp{K: "tick", N: 1, A: c17wLoad, S: gInt(rt, 0, 3, "s"), T: fmt.Sprintf("g%d", gInt(rt, 0, ngrp-1, "g")), X: live(),
+				M: c17wLat*gInt(rt, 0, 3, "calls") + gInt(rt, 1, c17wLat-1, "us"), L: gInt(rt, 0, 7, "rot")})
 		case x < 70:
 			p.Ops = append(p.Ops, wOp{K: "sub", S: s, T: t})
 		case x < 85:
@@ -118,6 +143,134 @@ type c17wObs struct {
 	preRing map[string]string
 	changes int
 	movedOut, movedIn, kept int
+	applied []string // the list of live nodes installed by the current step
+	ev      *c17wLoadEv
+	cls     map[string]bool
+}
+
+// c17wLoadEv is what a c17wLoad event did and saw.
+type c17wLoadEv struct {
+	name    string // the group
+	sent    bool   // the {sub} was sent to an unloaded topic
+	loading bool   // at the moment of the change the topic was registered with the hub and inactive (being loaded)
+	wasHere bool   // owner before the change was this node
+	moved   bool   // the change gave the name to the other side
+	code    int    // code of the {ctrl} which answered the {sub}; 0 = none
+}
+
+// ringChange does what Cluster.run does when the leader announces another list of live nodes.
+func (o *c17wObs) ringChange(list []string) {
+	o.applied = append([]string(nil), list...)
+	globals.cluster.rehash(append([]string(nil), list...))
+	globals.cluster.invalidateProxySubs("")
+	globals.cluster.gcProxySessions(list)
+	globals.hub.rehash <- true
+}
+
+func (o *c17wObs) takePre() {
+	o.pre = o.snapshot()
+	o.preRing = map[string]string{}
+	for name := range o.pre {
+		o.preRing[name] = globals.cluster.ring.Get(name)
+	}
+}
+
+// c17wOwner: the owner of name under the given list of live nodes (the ring Cluster.rehash builds).
+func c17wOwner(list []string, name string) string {
+	ring := rh.New(clusterHashReplicas, nil)
+	ring.Add(list...)
+	return ring.Get(name)
+}
+
+// loadEvent: see c17wLoad.
+func (o *c17wObs) loadEvent(w *wWorld, op *wOp) {
+	ev := &c17wLoadEv{}
+	o.ev = ev
+	plain := func(why string) {
+		o.cls["load-event:"+why+"(plain change instead)"] = true
+		o.takePre()
+		o.ringChange(op.X)
+	}
+	if !w.sessOK(op.S) {
+		plain("no-session")
+		return
+	}
+	ss := w.sess[op.S]
+	name := w.resolve(op.T, ss.user)
+	if !strings.HasPrefix(name, "grp") {
+		plain("no-such-group")
+		return
+	}
+	ev.name = name
+	// 1. unload the topic: everybody leaves, the idle timer fires
+	if t := globals.hub.topicGet(name); t != nil {
+		type att struct {
+			slot int
+			chn  bool
+		}
+		var atts []att
+		for s, psd := range t.sessions {
+			for k, x := range w.sess {
+				if x != nil && x.s == s {
+					atts = append(atts, att{k, psd.isChanSub})
+				}
+			}
+		}
+		sort.Slice(atts, func(i, j int) bool { return atts[i].slot < atts[j].slot })
+		for _, a := range atts {
+			as := name
+			if a.chn {
+				as = "chn" + strings.TrimPrefix(name, "grp")
+			}
+			w.do(w.sess[a.slot], `{"leave":{"id":"`+w.nextID()+`","topic":"`+as+`"}}`)
+		}
+		w.tick(idleMasterTopicTimeout + time.Second)
+	}
+	if globals.hub.topicGet(name) != nil {
+		plain("group-stays-loaded")
+		return
+	}
+	// 2. the list which moves the name to the other side
+	ev.wasHere = globals.cluster.ring.Get(name) == "a"
+	cands := [][]string{op.X}
+	peers := c17wNodes[1:o.p.Nodes]
+	for k := 0; k < 1<<len(peers); k++ {
+		bits := (k + op.L) % (1 << len(peers))
+		l := []string{"a"}
+		for j, n := range peers {
+			if bits&(1<<j) != 0 {
+				l = append(l, n)
+			}
+		}
+		cands = append(cands, l)
+	}
+	list := op.X
+	for _, l := range cands {
+		if (c17wOwner(l, name) == "a") != ev.wasHere {
+			list, ev.moved = l, true
+			break
+		}
+	}
+	o.takePre()
+	// 3. the {sub}, and the change while the topic is being loaded
+	mem.SetLatency([]int{c17wLat})
+	ss.fresh()
+	id := w.nextID()
+	ss.sendRaw([]byte(`{"sub":{"id":"` + id + `","topic":"` + name + `"}}`))
+	ev.sent = true
+	d := op.M
+	if d < 1 {
+		d = 1
+	}
+	time.Sleep(time.Duration(d) * time.Microsecond)
+	if t := globals.hub.topicGet(name); t != nil && t.isInactive() {
+		ev.loading = true
+	}
+	o.ringChange(list)
+	w.settle()
+	mem.SetLatency(nil)
+	w.settle()
+	ev.code = wCtrlCode(ss.fresh(), id)
 }
 
 func (o *c17wObs) snapshot() map[string]c17wTopic {
@@ -149,22 +302,18 @@ func (o *c17wObs) Before(w *wWorld, op *wOp) {
 		c.rehash([]string{"a"})
 		globals.cluster = c
 	}
+	o.ev = nil
 	if op.K == "tick" && op.A == c17wRing {
-		o.pre = o.snapshot()
-		o.preRing = map[string]string{}
-		for name := range o.pre {
-			o.preRing[name] = globals.cluster.ring.Get(name)
-		}
-		// what Cluster.run does when the leader announces another list of live nodes
-		globals.cluster.rehash(append([]string(nil), op.X...))
-		globals.cluster.invalidateProxySubs("")
-		globals.cluster.gcProxySessions(op.X)
-		globals.hub.rehash <- true
+		o.takePre()
+		o.ringChange(op.X)
+	}
+	if op.K == "tick" && op.A == c17wLoad {
+		o.loadEvent(w, op)
 	}
 }
 
 func (o *c17wObs) After(w *wWorld, st *wStep) *kit.Viol {
-	if !(st.Op.K == "tick" && st.Op.A == c17wRing) {
+	if !(st.Op.K == "tick" && (st.Op.A == c17wRing || st.Op.A == c17wLoad)) {
 		return nil
 	}
 	o.changes++
@@ -174,7 +323,42 @@ func (o *c17wObs) After(w *wWorld, st *wStep) *kit.Viol {
 		names = append(names, n)
 	}
 	sort.Strings(names)
-	live := strings.Join(st.Op.X, ",")
+	live := strings.Join(o.applied, ",")
+	if ev := o.ev; ev != nil && ev.sent {
+		// the topic which was being loaded when the list changed: any instance which runs here now
+		// (registered with the hub, neither paused nor being deleted) counts, attached or not
+		how := fmt.Sprintf("the list changed %d us after a {sub} to the unloaded topic (store call = %d us; topic registered and being loaded at that moment: %v; the {sub} was answered %d)",
+			st.Op.M, c17wLat, ev.loading, ev.code)
+		owner := globals.cluster.ring.Get(ev.name)
+		if t := globals.hub.topicGet(ev.name); t != nil && !t.isInactive() {
+			if !t.isProxy && owner != "a" {
+				return kit.V("master-topic-kept-after-rehash", "after the live nodes changed to [%s] topic %s belongs to node %s but a master instance of it is running on node a: two nodes serve the topic; %s", live, ev.name, owner, how)
+			}
+			if t.isProxy && owner == "a" {
+				return kit.V("proxy-topic-kept-after-rehash", "after the live nodes changed to [%s] topic %s belongs to this node but a proxy instance for it is running here; %s", live, ev.name, how)
+			}
+		}
+		side := map[bool]string{true: "here", false: "elsewhere"}
+		switch {
+		case ev.loading && ev.moved:
+			k := "load-cut-by-rehash:name-was-" + side[ev.wasHere]
+			o.cls[k] = true
+			if ev.code == 0 {
+				o.cls[k+":subscriber-not-answered"] = true
+			} else {
+				o.cls[fmt.Sprintf("%s:subscriber-answered-%dxx", k, ev.code/100)] = true
+			}
+		case ev.loading:
+			o.cls["rehash-while-loading:name-not-moved"] = true
+		case ev.moved:
+			o.cls["rehash-after-load-completed:name-moved"] = true
+		default:
+			o.cls["rehash-after-load-completed:name-not-moved"] = true
+		}
+		if !ev.moved && ev.code == 0 {
+			o.cls["rehash-near-load:name-not-moved:subscriber-not-answered"] = true
+		}
+	}
 	for _, n := range names {
 		owner := globals.cluster.ring.Get(n)
 		t := post[n]
@@ -214,7 +398,7 @@ func (o *c17wObs) After(w *wWorld, st *wStep) *kit.Viol {
 func c17wExec(t *testing.T, r *kit.Run) func(c17wProg) kit.Outcome {
 	return func(p c17wProg) kit.Outcome {
 		r.WAL(p)
-		obs := &c17wObs{p: &p}
+		obs := &c17wObs{p: &p, cls: map[string]bool{}}
 		var res wRunResult
 		fail := wInBubble(t, func() {
 			defer func() { globals.cluster = nil }()
@@ -231,6 +415,12 @@ func c17wExec(t *testing.T, r *kit.Run) func(c17wProg) kit.Outcome {
 		if obs.kept > 0 {
 			o.Classes = append(o.Classes, "master-stayed")
 		}
+		var extra []string
+		for k := range obs.cls {
+			extra = append(extra, k)
+		}
+		sort.Strings(extra)
+		o.Classes = append(o.Classes, extra...)
 		if fail != "" && res.Viol == nil {
 			o.Skip = true
 			fmt.Println("C17 bubble failure (not judged here):", firstLine(fail))
